@@ -772,6 +772,43 @@ theorem roundPos_near (f : Fmt) (hp : 1 ≤ f.p) (s : Bool) (n d : Nat) (hn : 0 
       rw [hm]
       congr 1; ring
 
+/-- **Spacing.** Between a normal canonical number `M·2^E` and `(M+1)·2^E` there is no other number of
+the format: a canonical `m·2^q` above the first is at least the second. -/
+theorem canonical_gap (f : Fmt) (hp : 1 ≤ f.p) (s t : Bool) (m M : Nat) (q E : Int)
+    (ha : Canonical f (fin s m q)) (hb : Canonical f (fin t M E)) (hbn : 2 ^ (f.p - 1) ≤ M)
+    (hgt : (M : ℝ) * (2 : ℝ) ^ E < (m : ℝ) * (2 : ℝ) ^ q) :
+    ((M : ℝ) + 1) * (2 : ℝ) ^ E ≤ (m : ℝ) * (2 : ℝ) ^ q := by
+  have two0 : (2 : ℝ) ≠ 0 := by norm_num
+  have h2E : (0 : ℝ) < (2 : ℝ) ^ E := by positivity
+  have h2q : (0 : ℝ) < (2 : ℝ) ^ q := by positivity
+  obtain ⟨hm, _, _, _⟩ := ha
+  by_cases hqE : E ≤ q
+  · -- m·2^q is a multiple of 2^E
+    have hk : 0 ≤ q - E := by omega
+    have e : (2 : ℝ) ^ q = ((2 ^ (q - E).toNat : Nat) : ℝ) * (2 : ℝ) ^ E := by
+      rw [two_zpow_toNat hk, ← zpow_add₀ two0]; congr 1; ring
+    rw [e, ← mul_assoc] at hgt ⊢
+    have h1 : (M : ℝ) < (m : ℝ) * ((2 ^ (q - E).toNat : Nat) : ℝ) := lt_of_mul_lt_mul_right hgt h2E.le
+    have h2 : M < m * 2 ^ (q - E).toNat := by exact_mod_cast h1
+    have h3 : ((M + 1 : Nat) : ℝ) ≤ ((m * 2 ^ (q - E).toNat : Nat) : ℝ) := by exact_mod_cast h2
+    rw [Nat.cast_add, Nat.cast_one, Nat.cast_mul] at h3
+    exact mul_le_mul_of_nonneg_right h3 h2E.le
+  · -- q < E: then m·2^q < 2^p·2^q ≤ 2^(p-1)·2^E ≤ M·2^E, contradiction
+    exfalso
+    have hq1 : q + 1 ≤ E := by omega
+    have hmR : (m : ℝ) < (2 : ℝ) ^ (f.p : Int) := by rw [zpow_natCast]; exact_mod_cast hm
+    have hMR : (2 : ℝ) ^ ((f.p : Int) - 1) ≤ (M : ℝ) := by
+      have e : ((f.p : Int) - 1) = ((f.p - 1 : Nat) : Int) := by omega
+      rw [e, zpow_natCast]; exact_mod_cast hbn
+    have two : (1 : ℝ) < 2 := by norm_num
+    have h1 : (m : ℝ) * (2 : ℝ) ^ q < (2 : ℝ) ^ ((f.p : Int) + q) := by
+      rw [zpow_add₀ two0]; exact mul_lt_mul_of_pos_right hmR h2q
+    have h2 : (2 : ℝ) ^ ((f.p : Int) + q) ≤ (2 : ℝ) ^ ((f.p : Int) - 1 + E) :=
+      (zpow_le_zpow_iff_right₀ two).mpr (by omega)
+    have h3 : (2 : ℝ) ^ ((f.p : Int) - 1 + E) ≤ (M : ℝ) * (2 : ℝ) ^ E := by
+      rw [zpow_add₀ two0]; exact mul_le_mul_of_nonneg_right hMR h2E.le
+    linarith
+
 /-- The real value of `roundE`'s argument as a quotient. -/
 theorem roundE_eq_roundPos (f : Fmt) (s : Bool) (n : Nat) (e : Int) (hn : 0 < n) :
     ∃ N D : Nat, 0 < N ∧ 0 < D ∧ roundE f s n e = roundPos f s N D ∧
